@@ -261,6 +261,12 @@ pub fn transfer_sum(key: &str) -> String {
     db.insert_account_info(CALLER, AccountInfo { nonce: 0, balance: from_bal, code_hash: B256::default(), code: None });
     db.insert_account_info(TARGET, AccountInfo { nonce: 0, balance: to_bal, code_hash: B256::default(), code: None });
     let mut js = JournaledState::new(SpecId::CANCUN, HashSet::default());
+    if key == "SelfTransfer" {
+        // value sent from an account to itself: nothing is minted, nothing is burnt
+        let r = js.transfer(&CALLER, &CALLER, amount, &mut db).expect("no db error");
+        let f = js.state.get(&CALLER).unwrap().info.balance;
+        return format!("result={} from_before={} from_after={}", r.map(|x| format!("{x:?}")).unwrap_or("ok".into()), from_bal, f);
+    }
     let r = js.transfer(&CALLER, &TARGET, amount, &mut db).expect("no db error");
     let f = js.state.get(&CALLER).unwrap().info.balance;
     let t = js.state.get(&TARGET).unwrap().info.balance;
@@ -943,6 +949,43 @@ pub fn create_collision(func: &str) -> String {
         };
         let ok = res == format!("{:?}", InstructionResult::CreateCollision);
         out += &format!("[{} target={} outcome={}{}] ", func, name, res, if ok { "" } else { " MISMATCH" });
+    }
+    out
+}
+
+// ---------------------------------------------------------------- the depth limit: a frame requested at journal depth 1024 is entered, at 1025 it is refused
+pub fn depth_limit() -> String {
+    use revm::interpreter::{EOFCreateInputs, EOFCreateKind, InstructionResult};
+    use revm::primitives::Eof;
+    let mut out = String::new();
+    for func in ["make_call_frame", "make_create_frame", "make_eofcreate_frame"] {
+        for at in [1023usize, 1024, 1025, 1026] {
+            let legacy = Bytecode::new_legacy(Bytes::from_static(&[0x00]));
+            let mut c = ctx(SpecId::OSAKA, 10, Some(legacy), 0);
+            c.inner.journaled_state.depth = at;
+            let r = match func {
+                "make_call_frame" => {
+                    let inputs = CallInputs { input: Bytes::new(), gas_limit: 100_000, bytecode_address: TARGET, target_address: TARGET, caller: CALLER,
+                        value: CallValue::Transfer(U256::ZERO), scheme: CallScheme::Call, is_eof: false, is_static: false, return_memory_offset: 0..0 };
+                    c.make_call_frame(&inputs).expect("no db error")
+                }
+                "make_create_frame" => {
+                    let inputs = CreateInputs { caller: CALLER, scheme: CreateScheme::Create, value: U256::ZERO, init_code: Bytes::from_static(&[0x00]), gas_limit: 100_000 };
+                    c.make_create_frame(SpecId::CANCUN, &inputs).expect("no db error")
+                }
+                _ => {
+                    let created = address!("00000000000000000000000000000000000000ee");
+                    let inputs = EOFCreateInputs { caller: CALLER, value: U256::ZERO, gas_limit: 100_000, kind: EOFCreateKind::Opcode { initcode: Eof::default(), input: Bytes::new(), created_address: created } };
+                    c.make_eofcreate_frame(SpecId::OSAKA, &inputs).expect("no db error")
+                }
+            };
+            let res = match &r {
+                FrameOrResult::Result(fr) => format!("{:?}", fr.interpreter_result().result),
+                FrameOrResult::Frame(_) => "frame".to_string(),
+            };
+            let ok = if at <= 1024 { res == "frame" } else { res == format!("{:?}", InstructionResult::CallTooDeep) };
+            out += &format!("[depth_limit {} requested at depth {} outcome={}{}] ", func, at, res, if ok { "" } else { " MISMATCH" });
+        }
     }
     out
 }
